@@ -1,7 +1,10 @@
 // Assumed specifications of std functions Verus does not know (trusted; listed in evidence).
 pub assume_specification [char::is_ascii_whitespace] (_0: &char) -> bool;
 pub assume_specification [char::is_ascii_digit] (_0: &char) -> bool;
-pub assume_specification<P: std::str::pattern::Pattern> [str::contains] (_0: &str, _1: P) -> bool;
+pub uninterp spec fn contains_spec<P>(s: &str, p: P) -> bool;
+#[verifier::allow(undeclared_external_trait)]
+pub assume_specification<P: std::str::pattern::Pattern> [str::contains] (_0: &str, _1: P) -> (r: bool)
+    ensures r == contains_spec(_0, _1);
 pub assume_specification<'a, T: Copy> [std::option::Option::<&T>::copied] (_0: std::option::Option<&'a T>) -> (r: std::option::Option<T>)
     ensures r == match _0 { Some(x) => Some(*x), None => None };
 #[verifier::external_body]
